@@ -65,7 +65,9 @@ for extra_cards in list(range(0, 32)) + [rng.randint(0, 40) for _ in range(R.n(4
         c = dict(extra_cards=extra_cards, directio=directio, npol=npol, nbits=nbits, nant=nant, bpf=bpf, N=N, template=template)
         aligned = directio != 0 and case % 2 == 0
         be = backend(npol, nbits, nant, bpf, case, aligned)
-        hd = {f'X{k:03d}': rng.choice(['abc', 5, 2.5, "'quoted'"]) for k in range(extra_cards)}
+        # user keys, some of them sharing a prefix with the END card or with cards the readers look for
+        ukeys = [f"{rng.choice(['X', 'X', 'END', 'EN', 'BLOC', 'DIR', 'PKT'])}{k:03d}" for k in range(extra_cards)]
+        hd = {k: rng.choice(['abc', 5, 2.5, "'quoted'", 'END']) for k in ukeys}
         hd.update({'NBITS': 99, 'OBSFREQ': 1.0, 'TELESCOP': 'GBT', 'PKTIDX': 1000})
         if directio is not None:
             hd['DIRECTIO'] = directio
@@ -91,7 +93,7 @@ for extra_cards in list(range(0, 32)) + [rng.randint(0, 40) for _ in range(R.n(4
         h0 = allb[0][0]
         own = int(h0['NBITS']) == nbits and int(h0['BLOCSIZE']) == be.block_size and int(h0['OBSNCHAN']) == be.num_chans * nant and int(h0['NPOL']) == npol \
             and abs(float(h0['TBIN']) - be.tbin) <= 1e-12 * be.tbin and abs(float(h0['OBSFREQ']) - 1.0) > 1e-6 and (nant == 1 or int(h0['NANTS']) == nant)
-        R.check('header/pipeline-fields-not-overridable-user-cards-kept', c, own and h0['TELESCOP'] == 'GBT' and all(f'X{k:03d}' in h0 for k in range(extra_cards)), None)
+        R.check('header/pipeline-fields-not-overridable-user-cards-kept', c, own and h0['TELESCOP'] == 'GBT' and all(k in h0 for k in ukeys), None)
         # the library's readers agree
         lib_counts = [raw_utils.get_blocks_in_file(f) for f in files]
         R.check('readers/get_blocks_in_file', c, lib_counts == counts, lib_counts, counts)
@@ -109,6 +111,10 @@ for extra_cards in list(range(0, 32)) + [rng.randint(0, 40) for _ in range(R.n(4
             for f in files:
                 os.unlink(f)
             continue        # blimpy aligns data to absolute 512-byte offsets: comparable only for block sizes that are multiples of 512
+        if any(k.startswith('END') for k in ukeys):
+            for f in files:
+                os.unlink(f)
+            continue        # blimpy's own reader stops at the first card whose text starts with 'END' (its limitation): not comparable
         try:
             from blimpy.guppi import GuppiRaw
             g = GuppiRaw(files[0])
